@@ -179,44 +179,6 @@ def sympy_to_json_q(expr, goal_syms, goal_names):
 
 
 # ------------------------------------------------------------------------------------------------
-# in-memory repair of the exponent lattice (attribution of F4 / F4b only; /repo is never touched)
-# ------------------------------------------------------------------------------------------------
-
-@contextlib.contextmanager
-def lattice_repair(kind):
-    if not kind:
-        yield
-        return
-    from invariants import exponent_lattice as el
-    from . import c16 as T16
-    cls = el.ExponentLattice
-    saved = (cls.compute_basis_rational, cls.is_trivially_empty)
-
-    def filtered(self):
-        """the code's own rows with the rows that are not multiplicative relations removed (sound,
-        possibly incomplete): isolates the effect of the false rows"""
-        rows = saved[0](self)
-        out = []
-        for row in rows:
-            v = Fr(1)
-            for b, e in zip(self.bases, row):
-                v *= Fr(int(b.p), int(b.q)) ** int(e)
-            if v == 1:
-                out.append(row)
-        return out
-    try:
-        if kind == "filter":
-            cls.compute_basis_rational = filtered
-        else:
-            cls.compute_basis_rational = T16._repaired_compute_basis_rational
-        if kind == "one":
-            cls.is_trivially_empty = T16._repaired_is_trivially_empty(saved[1])
-        yield
-    finally:
-        cls.compute_basis_rational, cls.is_trivially_empty = saved
-
-
-# ------------------------------------------------------------------------------------------------
 # the common back end: closed forms (sympy) + reported basis -> everything Lean needs
 # ------------------------------------------------------------------------------------------------
 
@@ -367,15 +329,14 @@ def _prepare(goal_names, cf_exprs, basis, res, want_c07, k_min, k_extra, caps, n
 DEFAULT_CAPS = {"cols": 60, "window": 160, "kernel": 45}
 
 
-def tuple_case(cfs, want_c07=False, k_min=3, k_extra=0, caps=None, repair=None):
+def tuple_case(cfs, want_c07=False, k_min=3, k_extra=0, caps=None):
     """cfs: [[goal, sympy source in n], ..] -> InvariantIdeal(dict).compute_basis() + certificates"""
     res = {"kind": "tuple"}
     caps = dict(DEFAULT_CAPS, **(caps or {}))
     goal_names = [g for g, _ in cfs]
     exprs = [parse_cf(s) for _, s in cfs]
     res["closed_forms"] = [str(e) for e in exprs]
-    with lattice_repair(repair):
-        basis = _run_ideal({g: e for g, e in zip(goal_names, exprs)}, res)
+    basis = _run_ideal({g: e for g, e in zip(goal_names, exprs)}, res)
     if basis is None:
         res["status"] = "refused"
         return res
@@ -389,10 +350,9 @@ def _cli_args(goals):
     return ap.parse_args(argv)
 
 
-def _parse_printed(out, ids):
-    """the section 'Invariants' of the CLI output -> list of sympy polynomials over placeholder symbols"""
-    import re
-    import sympy
+def _printed_lines(out):
+    """the lines `<poly> = 0` of the section 'Invariants' of the CLI output ([]: 'no invariants' message;
+    None: section missing)"""
     if "-   Invariants    -" not in out:
         return None
     sec = out.split("-   Invariants    -", 1)[1]
@@ -401,19 +361,28 @@ def _parse_printed(out, ids):
     if "Following is a gr" not in sec:
         return None
     lines = [l.strip() for l in sec.split("Following is a gr", 1)[1].split("\n")[1:]]
+    return [l[:-3].strip() for l in lines if l.endswith("= 0")]
+
+
+def _ids_unambiguous(ids):
+    """goal identifiers that can be told apart inside a printed polynomial: plain names or E(..)/ck(..)/kk(..)"""
+    import re
+    return all(re.fullmatch(r"[A-Za-z_]\w*", g) or re.fullmatch(r"(E|[ck]\d+)\(.*\)", g) for g in ids)
+
+
+def _parse_printed(lines, ids):
+    """printed polynomials -> sympy polynomials over placeholder symbols"""
+    import sympy
     polys = []
     order = sorted(range(len(ids)), key=lambda i: -len(ids[i]))
-    for l in lines:
-        if not l.endswith("= 0"):
-            continue
-        body = l[:-3].strip()
+    for body in lines:
         for i in order:
             body = body.replace(ids[i], f"GOAL{i}_")
         polys.append(sympy.sympify(body, rational=True))
     return polys
 
 
-def program_case(text, goals, want_c07=False, k_min=3, k_extra=0, caps=None, repair=None, subs=None,
+def program_case(text, goals, want_c07=False, k_min=3, k_extra=0, caps=None, subs=None,
                  want_matrix=True):
     """Run `--invariants` through GoalsAction in-process on program `text` with CLI goal strings
     (`goals` empty: the CLI default, E(v) for every original variable)."""
@@ -458,7 +427,7 @@ def program_case(text, goals, want_c07=False, k_min=3, k_extra=0, caps=None, rep
         GA.InvariantIdeal = Spy
         action = GA.GoalsAction(args)
         action.initialize_program(program, RecBuilder(program))
-        with lattice_repair(repair), contextlib.redirect_stdout(buf):
+        with contextlib.redirect_stdout(buf):
             action.handle_all_goals()
     except Exception as e:  # noqa
         res["status"] = "refused"
@@ -490,19 +459,28 @@ def program_case(text, goals, want_c07=False, k_min=3, k_extra=0, caps=None, rep
     except Exception:
         pass
     basis = captured["basis"]
-    # the printed section must be the computed basis (covers handle_invariants' printing glue)
+    # the printed section must be the computed basis (covers handle_invariants' printing glue): textually
+    # (every basis element printed once as `str(b) = 0`, nothing else) and - where the goal identifiers can be
+    # told apart inside a printed polynomial - also after parsing the text back
     try:
-        printed = _parse_printed(out, ids)
-        if printed is None:
+        lines = _printed_lines(out)
+        if lines is None:
             res["printed_ok"] = False
             res["printed_detail"] = "section not found"
         else:
-            ph = {sympy.Symbol(g): sympy.Symbol(f"GOAL{i}_") for i, g in enumerate(ids)}
-            want = [sympy.expand(b.xreplace(ph)) for b in basis]
-            got = [sympy.expand(p) for p in printed]
-            res["printed_ok"] = (len(want) == len(got) and all(any(sympy.expand(w - g) == 0 for g in got) for w in want))
+            res["printed_ok"] = sorted(lines) == sorted(str(b) for b in basis)
             if not res["printed_ok"]:
                 res["printed_detail"] = out[-1500:]
+            elif _ids_unambiguous(ids):
+                ph = {sympy.Symbol(g): sympy.Symbol(f"GOAL{i}_") for i, g in enumerate(ids)}
+                want = [sympy.expand(b.xreplace(ph)) for b in basis]
+                got = [sympy.expand(p) for p in _parse_printed(lines, ids)]
+                res["printed_ok"] = (len(want) == len(got)
+                                     and all(any(sympy.expand(w - g) == 0 for g in got) for w in want))
+                if not res["printed_ok"]:
+                    res["printed_detail"] = out[-1500:]
+            else:
+                res["ambiguous_ids"] = True
     except Exception as e:  # noqa
         res["printed_ok"] = False
         res["printed_detail"] = "unparseable: " + str(e)[:200]
@@ -527,19 +505,19 @@ def program_case(text, goals, want_c07=False, k_min=3, k_extra=0, caps=None, rep
 
 
 def _systems(program, goals, ids, subs):
-    """for each raw-moment goal E(M): the recurrence matrix, initial vector and index of M"""
+    """for each goal the linear systems behind it: E(M): the recurrence matrix, initial vector and index of
+    M (decided for all n by cfinite_check); ck(M) / kk(M): the systems of the raw moments E(M^j), j <= k, from
+    which the check recomputes the central moment / cumulant sequence independently of the goal glue"""
     import sympy
     out = []
     try:
-        from inputparser import GoalParser, MOMENT
+        from inputparser import GoalParser, MOMENT, CENTRAL, CUMULANT
         from recurrences import RecBuilder
         rb = RecBuilder(program)
         gl = goals or [f"E({v})" for v in program.original_variables]
-        for gid, gstr in zip(ids, gl):
-            gtype, gdata = GoalParser.parse(gstr)
-            if gtype != MOMENT:
-                continue
-            recs = rb.get_recurrences(gdata[0])
+
+        def system(monom):
+            recs = rb.get_recurrences(monom)
             A, v = recs.recurrence_matrix, recs.init_values_vector
             sm = {}
             for s in (A.free_symbols | v.free_symbols):
@@ -548,16 +526,29 @@ def _systems(program, goals, ids, subs):
                     sm[s] = sympy.Rational(f.numerator, f.denominator)
             A, v = A.xreplace(sm), v.xreplace(sm)
             if A.free_symbols or v.free_symbols or A.shape[0] > 40:
-                continue
+                return None
             if not all(x.is_Rational for x in A) or not all(x.is_Rational for x in v):
-                continue
+                return None
             mons = [sympy.sympify(m) for m in recs.monomials]
-            target = sympy.sympify(gdata[0])
+            target = sympy.sympify(monom)
             if target not in mons:
-                continue
-            out.append({"goal": gid, "i": mons.index(target),
-                        "A": [[f"{x.p}/{x.q}" for x in A.row(i)] for i in range(A.shape[0])],
-                        "v": [f"{x.p}/{x.q}" for x in v]})
+                return None
+            return {"i": mons.index(target),
+                    "A": [[f"{x.p}/{x.q}" for x in A.row(i)] for i in range(A.shape[0])],
+                    "v": [f"{x.p}/{x.q}" for x in v]}
+        for gid, gstr in zip(ids, gl):
+            gtype, gdata = GoalParser.parse(gstr)
+            if gtype == MOMENT:
+                sy = system(gdata[0])
+                if sy:
+                    out.append(dict(sy, goal=gid, kind="E"))
+            elif gtype in (CENTRAL, CUMULANT):
+                order, monom = int(gdata[0]), gdata[1]
+                if order > 6:
+                    continue
+                raws = [system(monom ** j) for j in range(1, order + 1)]
+                if all(raws):
+                    out.append({"goal": gid, "kind": "c" if gtype == CENTRAL else "k", "order": order, "raws": raws})
     except Exception as e:  # noqa
         out.append({"error": _err(e, "systems")})
     return out
